@@ -658,6 +658,7 @@ def prof_C14(d, rng):
     prof_C03(d, rng)
     d["p_summary_format"] = 0.6
     d["junit"] = rng.random() < 0.1
+    d["hook_interrupts"] = rng.random() < 0.2
 
 
 def prof_C15(d, rng):
@@ -679,6 +680,7 @@ def prof_C16(d, rng):
     d["cleanups"] = rng.random() < 0.4
     d["p_cleanup_fail"] = rng.choice([0.0, 0.2])
     d["autoretry"] = False
+    d["hook_interrupts"] = rng.random() < 0.2
 
 
 def prof_C17(d, rng):
